@@ -145,7 +145,19 @@ func classifyFreeSite(e *Engine, fn *ssa.Function, s ssa.CallInstruction, arg ss
 				return false
 			})
 			if posOK {
-				return "form C: the relocated record's old location (position it was read at, this file) is freed after the index re-point was attempted", ""
+				// the freed size must belong to the same record as the freed position
+				sz := complitField(arg, "Block.Size")
+				var posVal ssa.Value
+				derives(arg, flowOpts{}, func(v ssa.Value) bool {
+					if c, isCall := v.(*ssa.Call); isCall && cname(c) == "mhprimary.absolutePrimaryPos" {
+						posVal = stripIntConv(c.Call.Args[0])
+					}
+					return false
+				})
+				if sz == nil || posVal == nil || !pairConsistent(fn, posVal, stripIntConv(sz), map[[2]ssa.Value]bool{}) {
+					return "", "the freed (offset, size) pair is not consistently the position and size word of one record: the position/size variables are not updated in lock-step (a size of a different record is freed; GC then refuses the entry as a size mismatch, the record is relocated again and the first copy is never freed)"
+				}
+				return "form C: the relocated record's old location (position it was read at, this file) and its own size are freed after the index re-point was attempted", ""
 			}
 			why = append(why, "after updateIndex but the freed offset is not absolutePrimaryPos(read position, fileNum)")
 		}
@@ -265,7 +277,14 @@ func ruleFreelistConsume(r *Report) {
 		next = asCall(c)
 	}
 	removes := callSites(fn, "os.Remove")
-	if next == nil || len(removes) == 0 {
+	deferredRemove := false
+	for _, d := range defers(fn) {
+		if callsOrDefersClosureWith("os.Remove")(d) {
+			deferredRemove = true
+			r.Bad(rule, "processFreeList/remove-only-after-EOF", d.Pos(), "the hand-over file is removed by a deferred call, i.e. on every exit of processFreeList including a cancelled context (Close arriving mid-GC) or a read error: the unapplied entries are lost and those locations are never presented to GC")
+		}
+	}
+	if next == nil || (len(removes) == 0 && !deferredRemove) {
 		r.Bad(rule, "processFreeList/shape", fn.Pos(), "freelist read loop or removal of the hand-over file not found")
 		return
 	}
@@ -548,4 +567,91 @@ func ruleFreeListLocks(r *Report) {
 	la, rt := runLockAnalysis(r, "freelist-locks")
 	reportRaces(r, la, rt, "freelist-locks", nil, func(loc string) bool { return strings.HasPrefix(loc, "freelist.FreeList.") })
 	r.Min("freelist-locks", 3)
+}
+
+// complitField returns the value stored into field "T.f" of the composite
+// literal that v was loaded from.
+func complitField(v ssa.Value, field string) ssa.Value {
+	ld, ok := v.(*ssa.UnOp)
+	if !ok || ld.Op != token.MUL {
+		return nil
+	}
+	al, ok := ld.X.(*ssa.Alloc)
+	if !ok {
+		return nil
+	}
+	var out ssa.Value
+	for _, ref := range *al.Referrers() {
+		fa, ok := ref.(*ssa.FieldAddr)
+		if !ok || fieldName(fa.X.Type(), fa.Field) != field {
+			continue
+		}
+		for _, rr := range *fa.Referrers() {
+			if st, ok := rr.(*ssa.Store); ok && st.Addr == ssa.Value(fa) {
+				out = st.Val
+			}
+		}
+	}
+	return out
+}
+
+// pairConsistent: (pos, size) always denote the position and the size word of
+// the same log record. Follows the two variables through phis edge by edge;
+// accepted leaves: constants (no record: position sentinel), or size derived
+// from the size word that was read at pos.
+func pairConsistent(fn *ssa.Function, pos, size ssa.Value, assume map[[2]ssa.Value]bool) bool {
+	pos, size = stripIntConv(pos), stripIntConv(size)
+	k := [2]ssa.Value{pos, size}
+	if assume[k] {
+		return true
+	}
+	assume[k] = true
+	if c, ok := pos.(*ssa.Const); ok {
+		// sentinel position (-1): no record, any size
+		if v, ok := intConst(c); ok && v < 0 {
+			return true
+		}
+		_, sizeConst := size.(*ssa.Const)
+		return sizeConst
+	}
+	pp, pIsPhi := pos.(*ssa.Phi)
+	sp, sIsPhi := size.(*ssa.Phi)
+	if pIsPhi && sIsPhi && pp.Block() == sp.Block() {
+		for i := range pp.Edges {
+			if !pairConsistent(fn, pp.Edges[i], sp.Edges[i], assume) {
+				return false
+			}
+		}
+		return true
+	}
+	if pIsPhi {
+		// size is invariant with respect to the loop/merge that pos goes
+		// through (defined before it, not re-defined after it)
+		if sin, ok := size.(ssa.Instruction); ok && sin.Block() != pp.Block() && sin.Block().Dominates(pp.Block()) {
+			back, _ := Search{Fn: fn, From: pp, Target: func(in ssa.Instruction) bool { return in == sin }}.Run()
+			if !back {
+				for i := range pp.Edges {
+					if !pairConsistent(fn, pp.Edges[i], size, assume) {
+						return false
+					}
+				}
+				return true
+			}
+		}
+	}
+	// leaf: size is (derived by conversion/bit clearing from) a size word read at pos
+	for _, sw := range findSizeWords(fn) {
+		if !derives(size, flowOpts{Arith: true}, func(v ssa.Value) bool { return v == ssa.Value(sw.call) }) {
+			continue
+		}
+		if _, isPhi := size.(*ssa.Phi); isPhi {
+			continue
+		}
+		for _, ra := range callSites(fn, "(*os.File).ReadAt") {
+			if rootBuffer(ra.Common().Args[1]) == sw.buf && instrDominates(ra, sw.call) && stripIntConv(ra.Common().Args[2]) == pos {
+				return true
+			}
+		}
+	}
+	return false
 }
